@@ -2,14 +2,15 @@
 import itertools
 import random
 from vf import Case
-from gen import constants
+from gen import constants, cloops
 
 ID = "C14"
 DRIVER = "drv_codec"
 HARNESS = "h_codec"
 QUICK_LEVEL = "thorough"      # the larger case set costs only seconds
 THOROUGH_SEEDS = 6
-GEN = [constants.gen]
+GEN = [constants.gen, cloops.varint_gen]
+tie_modules = cloops.varint_tie_modules     # one obligation module per core function of variable-length-integer.c the loop translator delivered
 
 
 def _codec_consts():
@@ -28,11 +29,18 @@ RULE = ("values: 0, 2^(7k)-1, 2^(7k), 2^(7k)+1 for every k, all single-bit value
         "string of >= 2 octets; distinct = distinct operation text.")
 EXHAUSTIVE = {"quick": False, "thorough": False}
 ASSUMPTIONS = [
-    "lean/Ufw/Model/Varint.lean is a hand transcription of src/variable-length-integer.c tied to the code by the correspondence run",
+    "tie A (loops): varint_done, varint_encode, varint_decode, varint_from_source, varint_u64_length (and the typed wrappers of the decoders and "
+    "length queries) are translated from clang's typed AST on every run (tools/gen/cloops.py -> Gen/VarintLoops.lean: promotions explicit, the buffer "
+    "structure as its fields, the caller's 64-bit cell as a one-cell block, the source as a list of future answers, loops on fuel, checked loads and "
+    "stores) and the five core functions are proved to agree with the model: same verdict, value, octet count, read / fill mark, octets written, source "
+    "left behind, a failing source's code handed on, no access outside the memory, termination within ten rounds (Ufw.Tie.VarintLoops.*); a function "
+    "outside the translator's subset is reported `unavailable` and left to tie B",
+    "tie B: lean/Ufw/Model/Varint.lean is a hand transcription of src/variable-length-integer.c, compared with the code by running",
     "uint64_t arithmetic modelled as Nat reduced modulo 2^64 at the shifts; int<->unsigned conversion is two's complement",
     "the source decoder is exercised through an octet-style source owned by the harness (the endpoint plumbing is C17's subject)",
 ]
-TRUSTED = ["correspondence harness harness/h_codec.c + tools/lib/vf.py (return code, value, consumed count / new read mark, "
+TRUSTED = ["translator tools/gen/cloops.py + prelude lean/Ufw/Tie/CPre.lean (meaning of loads, stores, casts, fuel, the octet source)",
+           "correspondence harness harness/h_codec.c + tools/lib/vf.py (return code, value, consumed count / new read mark, "
            "encoded octets, fill mark; which errno a failing decode reports is compared only for 'illegal sequence')"]
 DESIGN_REF = "DESIGN.md section 0.2 (as built) and section 8, C14"
 TECHNIQUE = "Lean 4 proof by strong induction on the value / induction on the octet string (round trip, canonicity, decoder agreement, bounds) + differential correspondence"
